@@ -323,11 +323,15 @@ def body(chk):
                 return {"kind": "I", "shape": "k", "els": [sign_class(rng, rng.choice(kinds)) for _ in range(k)]}
             return {"kind": "I", "shape": "2d", "dims": dims, "els": [sign_class(rng, rng.choice(kinds)) for _ in range(dims[0] * dims[1])]}
         batch, held = [], []
-        for j in range(3):
+        # a small pool of operand OBJECTS used by several operations in a row (an operation must leave its operands as they were)
+        pool = [arr_interval(range(9)), arr_interval([0, 1, 6, 7]), arr_interval(range(9))]
+        objs = [build(d) for d in pool]
+        for j in range(4):
             op = rng.choice(["Mul", "Div", "Mul", "Add", "Sub"])
-            a, b = arr_interval(range(9)), arr_interval([0, 1, 6, 7] if op == "Div" else range(9))
+            ia, ib = rng.randrange(3), (1 if op == "Div" else rng.randrange(3))
+            a, b = pool[ia], pool[ib]
             try:
-                held.append(PYOP[op](build(a), build(b)))
+                held.append(PYOP[op](objs[ia], objs[ib]))
                 batch.append((op, a, b))
             except Exception as e:
                 chk.report(f"Interval.{op}:held", f"valid operands raise {type(e).__name__}", {"kind": "oracle", "op": op, "a": a, "b": b})
